@@ -34,6 +34,6 @@ Lemma nonvacuous_collinear :
   let index := fun (_ : R) (_ : vec) (_ : polarization) => 3 / 2 in
   w_z index Ordinary Ordinary 0 0 2 1 (1, 1) (1, 1) PPOff <> 0 /\ w_z index Ordinary Ordinary 0 0 2 1 (1, 1) (1, 1) (PPOn 1 false) <> 0.
 Proof.
-  intros index. unfold w_z, n_p, n_s, kpp, refractive_index, index, pp_k_pp, idler_k_pp, pp_signed_period_on, sign_mul.
+  intros index. unfold w_z, n_p, n_s, kpp, refractive_index, beam_refractive_index, index, pp_k_pp, idler_k_pp, pp_signed_period_on, sign_mul.
   rewrite cos_0. split; [lra|]. replace (2 / (1 * -1)) with (-2) by (field; lra). lra.
 Qed.
